@@ -164,11 +164,15 @@ static void do_launch(Out& out, uint64_t seed, const std::string& tier, const La
     std::unique_ptr<SharedOps> sh; if (L.shared) sh.reset(new SharedOps(*probs[0]));
     long rep0 = g_tsan_reports.load();
     std::vector<Blob> ref(L.T);
-    for (int t = 0; t < L.T; t++) ref[t] = run_job(L.jobs[t], *probs[L.prob[t]], sh.get());
+    // the sequential reference uses its OWN wrapper objects: the shared wrappers of the concurrent phase must be used for the first time
+    // by several threads at once (a lazily initialised cache in a wrapper would otherwise be filled here, before any concurrency)
+    std::unique_ptr<SharedOps> sh_ref; if (L.shared) sh_ref.reset(new SharedOps(*probs[0]));
+    for (int t = 0; t < L.T; t++) ref[t] = run_job(L.jobs[t], *probs[L.prob[t]], sh_ref.get());
     for (int t = 0; t < L.T; t++) { out.count(std::string("oracle_") + (ref[t].size() > 2 && ref[t][1] != 0xEEEEEEEEull ? "job_ok" : "job_threw")); out.count(std::string("cfg:") + CFG_NAME[L.jobs[t].cfg]); }
     out.count(L.mixed ? "mode:mixed-private" : L.shared ? "mode:shared-wrapper" : "mode:private"); out.count("threads:" + str(L.T));
     const int inner = 3;   // each thread solves its job `inner` times back to back, so that the threads really overlap in time
     for (int rep = 0; rep < reps; rep++) {
+        if (L.shared) sh.reset(new SharedOps(*probs[0]));     // fresh shared wrappers: first use happens concurrently
         std::vector<std::vector<Blob>> got(L.T, std::vector<Blob>(inner)); std::atomic<int> arrived(0); std::atomic<bool> go(false);
         std::vector<std::thread> th;
         for (int k = 0; k < L.T; k++) { int t = L.order[k];
